@@ -393,95 +393,79 @@ theorem repro_data (Z : Ind F) (D : String) (K : TDataContract Z D) (hne : Z.nam
 /-- `calculate_index(i, i + 1)`, `i ≠ 0`, of a node with exactly one (prior) helper -/
 theorem calculateIndex_top_one (P A : Ind F) (hs : P.subs = [A]) (hA : A.priorCalc = true) (f : Nat)
     (cs : List (Candle F)) (i : Int) (hi : i ≠ 0) (hi1 : i + 1 ≠ 0) :
-    calculateIndex (f + 2) P cs i (i + 1) = (do
-      let cs₁ ← calculateIndex f A cs i (i + 1)
-      ownStep (f + 1) P cs₁ i) := by
-  rw [calculateIndex_single, hs, calcSubs_cons_idx f A [] true i hi hi1 hA]
-  simp only [bind, Except.bind]
-  cases calculateIndex f A cs i (i + 1) with
-  | error e => rfl
-  | ok cs₁ =>
-    simp only
-    obtain ⟨g, rfl⟩ | rfl : (∃ g, f = g + 1) ∨ f = 0 := by cases f <;> simp
-    · rw [calcSubs_nil]
-      simp only
-      cases ownStep (g + 1 + 1) P cs₁ i with
-      | error e => rfl
-      | ok cs₂ => exact calcSubs_skip false _ [A] (by simp [hA]) _ _ (by simp)
-    · rw [calcSubs]
-
-/-- the same at index 0: the helper runs its full `calculate()` -/
-theorem calculateIndex_top_one_zero (P A : Ind F) (hs : P.subs = [A]) (hA : A.priorCalc = true) (f : Nat)
-    (cs : List (Candle F)) :
-    calculateIndex (f + 2) P cs 0 (0 + 1) = (do
-      let cs₁ ← calculate f A cs
-      ownStep (f + 1) P cs₁ 0) := by
-  rw [calculateIndex_single, hs, calcSubs_cons_zero f A [] true hA]
-  simp only [bind, Except.bind]
-  cases calculate f A cs with
-  | error e => rfl
-  | ok cs₁ =>
-    simp only
-    obtain ⟨g, rfl⟩ | rfl : (∃ g, f = g + 1) ∨ f = 0 := by cases f <;> simp
-    · rw [calcSubs_nil]
-      simp only
-      cases ownStep (g + 1 + 1) P cs₁ 0 with
-      | error e => rfl
-      | ok cs₂ => exact calcSubs_skip false _ [A] (by simp [hA]) _ _ (by simp)
-    · rw [calcSubs]
-
-/-- `calculate_index(i, i + 1)`, `i ≠ 0`, of a node with exactly two (prior) helpers -/
-theorem calculateIndex_top_two (P A E : Ind F) (hs : P.subs = [A, E]) (hA : A.priorCalc = true)
-    (hE : E.priorCalc = true) (f : Nat) (cs : List (Candle F)) (i : Int) (hi : i ≠ 0) (hi1 : i + 1 ≠ 0) :
     calculateIndex (f + 3) P cs i (i + 1) = (do
       let cs₁ ← calculateIndex (f + 1) A cs i (i + 1)
-      let cs₂ ← calculateIndex f E cs₁ i (i + 1)
-      ownStep (f + 2) P cs₂ i) := by
-  rw [calculateIndex_single, hs, calcSubs_cons_idx (f + 1) A [E] true i hi hi1 hA]
+      ownStep (f + 2) P cs₁ i) := by
+  rw [calculateIndex_single, hs, calcSubs_cons_idx (f + 1) A [] true i hi hi1 hA]
   simp only [bind, Except.bind]
   cases calculateIndex (f + 1) A cs i (i + 1) with
   | error e => rfl
   | ok cs₁ =>
-    simp only
-    rw [calcSubs_cons_idx f E [] true i hi hi1 hE]
-    simp only [bind, Except.bind]
-    cases calculateIndex f E cs₁ i (i + 1) with
+    simp only [calcSubs_nil]
+    cases ownStep (f + 2) P cs₁ i with
     | error e => rfl
-    | ok cs₂ =>
-      simp only
-      obtain ⟨g, rfl⟩ | rfl : (∃ g, f = g + 1) ∨ f = 0 := by cases f <;> simp
-      · rw [calcSubs_nil]
-        simp only
-        cases ownStep (g + 1 + 2) P cs₂ i with
-        | error e => rfl
-        | ok cs₃ => exact calcSubs_skip false _ [A, E] (by simp [hA, hE]) _ _ (by simp)
-      · rw [calcSubs]
+    | ok cs₂ => exact calcSubs_skip false _ [A] (by simp [hA]) _ _ (by simp)
 
-/-- the same at index 0 -/
-theorem calculateIndex_top_two_zero (P A E : Ind F) (hs : P.subs = [A, E]) (hA : A.priorCalc = true)
-    (hE : E.priorCalc = true) (f : Nat) (cs : List (Candle F)) :
+/-- the same at index 0: the helper runs its full `calculate()` -/
+theorem calculateIndex_top_one_zero (P A : Ind F) (hs : P.subs = [A]) (hA : A.priorCalc = true) (f : Nat)
+    (cs : List (Candle F)) :
     calculateIndex (f + 3) P cs 0 (0 + 1) = (do
       let cs₁ ← calculate (f + 1) A cs
-      let cs₂ ← calculate f E cs₁
-      ownStep (f + 2) P cs₂ 0) := by
-  rw [calculateIndex_single, hs, calcSubs_cons_zero (f + 1) A [E] true hA]
+      ownStep (f + 2) P cs₁ 0) := by
+  rw [calculateIndex_single, hs, calcSubs_cons_zero (f + 1) A [] true hA]
   simp only [bind, Except.bind]
   cases calculate (f + 1) A cs with
   | error e => rfl
   | ok cs₁ =>
+    simp only [calcSubs_nil]
+    cases ownStep (f + 2) P cs₁ 0 with
+    | error e => rfl
+    | ok cs₂ => exact calcSubs_skip false _ [A] (by simp [hA]) _ _ (by simp)
+
+/-- `calculate_index(i, i + 1)`, `i ≠ 0`, of a node with exactly two (prior) helpers -/
+theorem calculateIndex_top_two (P A E : Ind F) (hs : P.subs = [A, E]) (hA : A.priorCalc = true)
+    (hE : E.priorCalc = true) (f : Nat) (cs : List (Candle F)) (i : Int) (hi : i ≠ 0) (hi1 : i + 1 ≠ 0) :
+    calculateIndex (f + 4) P cs i (i + 1) = (do
+      let cs₁ ← calculateIndex (f + 2) A cs i (i + 1)
+      let cs₂ ← calculateIndex (f + 1) E cs₁ i (i + 1)
+      ownStep (f + 3) P cs₂ i) := by
+  rw [calculateIndex_single, hs, calcSubs_cons_idx (f + 2) A [E] true i hi hi1 hA]
+  simp only [bind, Except.bind]
+  cases calculateIndex (f + 2) A cs i (i + 1) with
+  | error e => rfl
+  | ok cs₁ =>
     simp only
-    rw [calcSubs_cons_zero f E [] true hE]
+    rw [calcSubs_cons_idx (f + 1) E [] true i hi hi1 hE]
     simp only [bind, Except.bind]
-    cases calculate f E cs₁ with
+    cases calculateIndex (f + 1) E cs₁ i (i + 1) with
     | error e => rfl
     | ok cs₂ =>
-      simp only
-      obtain ⟨g, rfl⟩ | rfl : (∃ g, f = g + 1) ∨ f = 0 := by cases f <;> simp
-      · rw [calcSubs_nil]
-        simp only
-        cases ownStep (g + 1 + 2) P cs₂ 0 with
-        | error e => rfl
-        | ok cs₃ => exact calcSubs_skip false _ [A, E] (by simp [hA, hE]) _ _ (by simp)
-      · rw [calcSubs]
+      simp only [calcSubs_nil]
+      cases ownStep (f + 3) P cs₂ i with
+      | error e => rfl
+      | ok cs₃ => exact calcSubs_skip false _ [A, E] (by simp [hA, hE]) _ _ (by simp)
+
+/-- the same at index 0 -/
+theorem calculateIndex_top_two_zero (P A E : Ind F) (hs : P.subs = [A, E]) (hA : A.priorCalc = true)
+    (hE : E.priorCalc = true) (f : Nat) (cs : List (Candle F)) :
+    calculateIndex (f + 4) P cs 0 (0 + 1) = (do
+      let cs₁ ← calculate (f + 2) A cs
+      let cs₂ ← calculate (f + 1) E cs₁
+      ownStep (f + 3) P cs₂ 0) := by
+  rw [calculateIndex_single, hs, calcSubs_cons_zero (f + 2) A [E] true hA]
+  simp only [bind, Except.bind]
+  cases calculate (f + 2) A cs with
+  | error e => rfl
+  | ok cs₁ =>
+    simp only
+    rw [calcSubs_cons_zero (f + 1) E [] true hE]
+    simp only [bind, Except.bind]
+    cases calculate (f + 1) E cs₁ with
+    | error e => rfl
+    | ok cs₂ =>
+      simp only [calcSubs_nil]
+      cases ownStep (f + 3) P cs₂ 0 with
+      | error e => rfl
+      | ok cs₃ => exact calcSubs_skip false _ [A, E] (by simp [hA, hE]) _ _ (by simp)
 
 end Hex
